@@ -20,6 +20,27 @@ def canon(x):
     return repr(x)
 
 
+def _sort_deep(x):
+    import json as _json
+
+    if isinstance(x, list):
+        return sorted((_sort_deep(e) for e in x), key=lambda e: _json.dumps(e, sort_keys=True, default=repr))
+    if isinstance(x, dict):
+        return {k: _sort_deep(v) for k, v in x.items()}
+    return x
+
+
+def norm_obs(obs):
+    """observations whose key ends with '~' are compared order-insensitively (set iteration order is not modelled)"""
+    out = []
+    for kv in canon(obs or []):
+        if isinstance(kv, list) and len(kv) == 2 and isinstance(kv[0], str) and kv[0].endswith("~"):
+            out.append([kv[0], _sort_deep(kv[1])])
+        else:
+            out.append(kv)
+    return out
+
+
 def replay(fn, witness, params, open_findings=()):
     from .ctx import AssumeFailed, ConcreteCtx, Refuted, ReplayDivergence
 
@@ -40,7 +61,7 @@ def replay(fn, witness, params, open_findings=()):
         out["status"] = "REFUTED"
         out["msg"] = "unexpected %s: %s" % (type(e).__name__, e)
         out["tb"] = traceback.format_exc(limit=-6)
-    out["obs"] = canon(ctx.obs)
+    out["obs"] = norm_obs(ctx.obs)
     out["checks"] = ctx.checks
     out["notes"] = list(ctx.notes)
     return out
@@ -63,9 +84,9 @@ def main():
             continue
         r = replay(ob.fn, p["witness"], params, open_findings)
         r["n"] = p["n"]
-        r["obs_equal"] = canon(p.get("obs")) == r["obs"]
+        r["obs_equal"] = norm_obs(p.get("obs")) == r["obs"]
         if not r["obs_equal"]:
-            r["obs_a"] = canon(p.get("obs"))
+            r["obs_a"] = norm_obs(p.get("obs"))
         else:
             r.pop("obs", None)
         out.append(r)
